@@ -502,6 +502,8 @@ func main() {
 	c.Set("rule", "eras Mary..Dijkstra x output form (array; Babbage+ also map) x q in {-2^64,-2^63-1,-1,0,1,2^63,2^63+1,2^64-1,2^64,2^65} x encoding {int,bignum,bignum with leading zero} x shape {single funded by inputs (q>=0, chunks <=2^63 per UTxO), single funded by mint/burn with a witnessed native policy script, unfunded pair +|q|/-|q|}; real era decoder, then EVERY rule of the era's UtxoValidationRules (accepted = no rule error and no panic); distinct = the case tuple; oracle = accepted => all output quantities (wire and decoded) in [0,2^64-1]; the q=1 baseline must be accepted in every era/form/funding or the run aborts")
 	c.Assume("blake2b and ed25519 trusted; key seeds / txids are representatives derived from VERIF_SEED")
 	c.Assume("protocol parameters: mainnet-like fee and min-UTxO coefficients; stub ledger state holds exactly the consumed UTxOs, network id 0")
+	// free-running -race pass: concurrent callers on their own inputs (state the library shares between calls)
+	c.RaceAudit("c08")
 	c.Finish()
 }
 
